@@ -790,6 +790,7 @@ class ImplSpec:
         self.only = None
         self.header_rewrites = []
         self.nested = {}
+        self.sigrewrites = []
 
 
 def apply_contract(sig, clauses, ret="r"):
@@ -881,6 +882,14 @@ def process_fn(fn, spec, handle, stats, canary):
     sig = drop_attrs_and_docs(fn["sig"])
     body = fn["body"]
     stats["verbatim_lines"] += body.count("\n") + 1
+    for (fname, old_, new_) in spec.sigrewrites:
+        if fname != name:
+            continue
+        rx_ = re.compile(ws_insensitive_regex(old_))
+        if len(rx_.findall(sig)) != 1:
+            raise ExtractError("declared signature rewrite on %s no longer matches: %s" % (name, old_))
+        sig = rx_.sub(new_, sig, count=1)
+        stats["R7"] += 1
     # declared rewrites
     for (fname, old, new) in spec.rewrites:
         if fname != name:
@@ -910,7 +919,10 @@ def process_fn(fn, spec, handle, stats, canary):
             stats["R1"] += 1
     for (expr, why) in spec.assumes.get(name, []):
         e2 = replace_self(expr) if (by_value and not handle) else expr
-        body = "\n    assume(%s); // ASSUMPTION: %s" % (e2, why) + body
+        body = "\n    assume(%s); // ASSUMPTION: %s\n" % (e2, why) + body
+    if handle and re.search(r"(?<![\w])Observer::<", body):
+        body = re.sub(r"(?<![\w])Observer::<", "HObserver::<", body)   # R7: explicit trait paths
+        stats["R7"] += 1
     if handle and re.search(r"\bimpl\s+Observer\s*<", body):
         # R7 inside a handle impl: task functions receive the shared slot handle, so their
         # `impl Observer` parameter is the handle form of the trait (terminals take `&mut self`)
@@ -972,7 +984,7 @@ def process_fn(fn, spec, handle, stats, canary):
     if canary and (clauses or name in spec.fn) and name not in spec.trusted and name not in spec.canary_skip:
         # vacuity canary: the entry of every contracted function must be reachable, i.e. its
         # preconditions (and the representation invariant) must be satisfiable
-        body = "\n    assert(false); // CANARY" + body
+        body = "\n    assert(false); // CANARY\n" + body
     sig, ctext = apply_contract(sig, clauses, spec.ret.get(name, "r"))
     pre = ""
     if name in spec.trusted:
@@ -1080,6 +1092,10 @@ def extract_impl(path, header_lit, macro, args, handle, spec, stats, canary):
                      "  open spec fn records(&self) -> bool { false }",
                      "  open spec fn delivered(t: Seq<Ev<%s>>) -> bool { true }" % ta] + spec.spec
         stats["R6"] += 3
+    if tm and not handle and not any("fn ended" in x for x in spec.spec):
+        ta = re.sub(r"\s+", " ", tm.group(1)).strip()
+        spec.spec = ["  open spec fn ended(o: Self, ev: Ev<%s>) -> bool { true }" % ta] + spec.spec
+        stats["R6"] += 1
     if spec.spec:
         out.append("\n".join(spec.spec))
         stats["added_lines"] += len(spec.spec)
@@ -1317,6 +1333,11 @@ def generate(template_path, variant, canary=False):
                     for x in t[2:]:
                         if x.startswith("ret="):
                             spec.ret[t[1]] = x[4:]
+                elif t[0] == "@@sigrewrite":
+                    rest_ = l.split("::", 1)[1]
+                    old_, new_ = rest_.split("==>", 1)
+                    spec.sigrewrites.append((t[1], old_.strip(), new_.strip()))
+                    i += 1
                 elif t[0] == "@@nested":
                     buf, i = collect(i + 1)
                     spec.nested.setdefault(t[1], {})[t[2]] = [b for b in buf if b.strip()]
